@@ -440,10 +440,39 @@ fn oracle(c: &Case, script: &[u8], obs: &Obs) -> String {
                 }
             }
         }
-        // (3) `read -r v` / data / `probe R<k> "$v"`: the variable holds exactly the data line
-        let text = String::from_utf8_lossy(script).into_owned();
-        let lines: Vec<&str> = text.split('\n').collect();
-        for w in lines.windows(3) {
+    }
+    // (3) and (4) need the runs of the unit prefixes: file feed only (the pipe feeds are compared with
+    // the file feed by (1))
+    if matches!(c.feed, Feed::File) {
+        // complete[k]: the first k units are a complete script of their own (no syntax error, e.g.
+        // no construct left open that a later unit could close)
+        let mut complete = vec![true];
+        for k in 1..c.units.len() {
+            let prefix: Vec<u8> = c.units[..k].concat();
+            if !prefix.ends_with(b"\n") {
+                complete.push(false);
+                continue;
+            }
+            let p = observe(&prefix, &c.data, &Feed::File);
+            let ok = !p.stuck && !p.err;
+            complete.push(ok);
+            // (4) the run of a complete unit prefix is a prefix of the run
+            if ok && (!is_prefix(&p.items, &obs.items) || !is_prefix(&p.echo, &obs.echo)) {
+                return format!("FAIL:later-lines-change-earlier-commands k={k} prefix={}", show(&p));
+            }
+        }
+        // (3) `read -r v` / data / `probe R<k> "$v"` at the top level of a unit that follows a
+        // complete prefix: the variable holds exactly the data line
+        for (j, unit) in c.units.iter().enumerate() {
+            if !complete[j] {
+                continue;
+            }
+            let text = String::from_utf8_lossy(unit).into_owned();
+            let lines: Vec<&str> = text.split('\n').collect();
+            if lines.len() < 3 {
+                continue;
+            }
+            let w = &lines[..3];
             let (Some(var), Some(p)) = (w[0].strip_prefix("read -r "), w[2].strip_prefix("probe R"))
             else {
                 continue;
@@ -463,23 +492,6 @@ fn oracle(c: &Case, script: &[u8], obs: &Obs) -> String {
                 if fs.len() == 2 && fs[0] == marker && fs[1] != enc_str(want) {
                     return format!("FAIL:read-got-other-line R{k}");
                 }
-            }
-        }
-    }
-    // (4) the run of every unit prefix is a prefix of the run (file feed only: one extra run each)
-    if matches!(c.feed, Feed::File) && c.units.len() > 1 {
-        for k in 1..c.units.len() {
-            let prefix: Vec<u8> = c.units[..k].concat();
-            if !prefix.ends_with(b"\n") {
-                continue;
-            }
-            let p = observe(&prefix, &c.data, &Feed::File);
-            if p.stuck || p.err {
-                // the prefix is not a complete script of its own (only in hand-written cases)
-                continue;
-            }
-            if !is_prefix(&p.items, &obs.items) || !is_prefix(&p.echo, &obs.echo) {
-                return format!("FAIL:later-lines-change-earlier-commands k={k} prefix={}", show(&p));
             }
         }
     }
@@ -538,6 +550,9 @@ struct Gen {
     aliases: Vec<usize>,
     portable: bool,
     thorough: bool,
+    /// a unit contains a line that is only a closing keyword (it could close a construct that a
+    /// planted error left open)
+    has_closers: bool,
 }
 
 impl Gen {
@@ -793,7 +808,7 @@ impl Gen {
         let v = self.var();
         match self.rng.below(8) {
             0 => format!("read {v}\na\u{E000}b {}\nprobe {} \"${v}\" $?", self.word(), self.m()),
-            1 => format!("read -r {v}\n{}{bad}: {}\nprobe {} \"${v}\" $?", self.word(), self.word(), self.m()),
+            1 => format!("read -r {v}\n{}{bad}, {}\nprobe {} \"${v}\" $?", self.word(), self.word(), self.m()),
             2 => format!("read {v}\n{}{bad}\nprobe {} \"${v}\" $?", self.word(), self.m()),
             3 => format!("probe {} 'a{bad}b' x{bad}", self.m()),
             4 => format!("probe {} \"{}{bad}\" # {bad} \u{E000} fi", self.m(), self.word()),
@@ -809,6 +824,7 @@ impl Gen {
     }
     /// an alias whose replacement leaves the command unfinished: the parser pulls the following lines
     fn alias_open_unit(&mut self) -> String {
+        self.has_closers = true;
         let k = 1 + self.rng.below(3);
         if !self.aliases.contains(&k) {
             self.aliases.push(k);
@@ -902,7 +918,11 @@ impl Gen {
         if self.rng.chance(2, 5) {
             // a syntax error planted at a later line
             let at = 1 + self.rng.below(units.len());
-            let e = self.error_unit();
+            let mut e = self.error_unit();
+            // an error that leaves `if`/`{` open would be closed by a later lone `fi`/`}` line
+            while self.has_closers && (e.starts_with("if st 0; then\nprobe") || e.starts_with("{ probe")) {
+                e = self.error_unit();
+            }
             units.insert(at.min(units.len()), e);
         } else if self.rng.chance(1, 4) {
             let t = self.terminal_unit();
@@ -1103,7 +1123,7 @@ fn main() {
         &["probe m1 a\\\nb \"c\\\nd\"\n", "read v1\nx\\\ny\n", "probe m2 $v1\n"],
         &["alias a1='probe m1 &&'\n", "a1\nprobe m2\n", "alias a2='if st 0; then'\n", "a2\nprobe m3\nfi\n"],
         &["probe m1\n", "probe m2 'open\nstill"],
-        &["read v1\na\u{E000}b\n", "probe m1 \"$v1\" $?\n", "read v2\nx\u{E001}y: z\n", "probe m2 \"$v2\" $?\n"],
+        &["read v1\na\u{E000}b\n", "probe m1 \"$v1\" $?\n", "read v2\nx\u{E001}y, z\n", "probe m2 \"$v2\" $?\n"],
         &["probe m1 'a\u{E001}b' \u{E002}\u{E000} # \u{E005}\n", "cat <<E\n\u{E003}\u{E004}\nE\n"],
         &["if st 0; then\ncat <<E\nh\nE\nread v1\nfi\nd1 \\\nd2\n", "probe m1 \"$v1\""],
     ];
@@ -1133,6 +1153,7 @@ fn main() {
             aliases: vec![],
             portable: false,
             thorough: o.thorough(),
+            has_closers: false,
         };
         let units = g.script();
         let len: usize = units.iter().map(|u| u.len()).sum();
